@@ -3,6 +3,7 @@ import NxProofs.MiscCrc
 import NxProofs.MiscBase64
 import NxProofs.MiscAuth
 import NxProofs.MiscAuthClients
+import NxProofs.MiscCtr
 /-!
 # C19 — request authentication codes and auxiliary codecs
 
@@ -112,6 +113,39 @@ theorem prodinfo_check_def (data : Bytes) (offset size : Nat) (h2 : 2 ≤ offset
 /-- a rejected region is a ValueError (bad CRC) or a struct.error (truncated file) -/
 theorem prodinfo_check_errors (data : Bytes) (offset size : Nat) (e : Err)
     (h : prodCheck data offset size = .error e) : e = .value ∨ e = .struct := prodCheck_err data offset size e h
+
+/-! ### the counter of the TLS-key unwrap (`get_tls_key`: AES-CTR, the stored 16-byte block is the whole counter)
+
+`prodTlsD` decrypts with `aesCtr`, whose block `i` is the encryption of `ctrBlock ((iv + i) mod 2^128)`. The
+theorems say what that block IS at the carry boundaries (they are about the reference; that the library agrees
+with it at exactly these counter blocks is the differential part: `prod-bound:tlsd` lines of the harness). -/
+
+theorem ctr_keystream_blocks (key iv data : Bytes) (w : Array Bytes) (hk : keyExpansion key = some w) (hiv : iv.length = 16) :
+    aesCtr key iv data = .ok (xorB data ((List.range ((data.length + 15) / 16)).flatMap fun i =>
+      encryptBlockW w (ctrBlock ((bytesToNatBE iv + i) % 2 ^ 128)))) := aesCtr_keystream key iv data w hk hiv
+
+/-- a counter block is the 128-bit big-endian numeral, all sixteen bytes of it -/
+theorem ctr_block_is_128_bit_numeral (n : Nat) : bytesToNatBE (ctrBlock n) = n % 2 ^ 128 := bytesToNatBE_ctrBlock n
+
+/-- low 64 bits of the stored block `j` short of all ones: from block `j + 1` on the UPPER half is `hi + 1` (mod 2^64)
+    and the lower half restarts at 0 — the carry is not lost at the 64-bit boundary -/
+theorem ctr_carry_crosses_64_bit_boundary (hi j i : Nat) (hj : j < 2 ^ 64) (hji : j < i) (hi2 : i ≤ j + 2 ^ 64) :
+    bytesToNatBE ((ctrBlock ((hi * 2 ^ 64 + (2 ^ 64 - 1 - j) + i) % 2 ^ 128)).take 8) = (hi + 1) % 2 ^ 64 ∧
+    bytesToNatBE ((ctrBlock ((hi * 2 ^ 64 + (2 ^ 64 - 1 - j) + i) % 2 ^ 128)).drop 8) = i - j - 1 :=
+  ctr_carry_into_high_half hi j i hj hji hi2
+
+/-- … and up to block `j` the upper half is the stored one -/
+theorem ctr_upper_half_before_carry (hi j i : Nat) (hhi : hi < 2 ^ 64) (hj : j < 2 ^ 64) (hij : i ≤ j) :
+    bytesToNatBE ((ctrBlock ((hi * 2 ^ 64 + (2 ^ 64 - 1 - j) + i) % 2 ^ 128)).take 8) = hi :=
+  ctr_no_carry_before hi j i hhi hj hij
+
+-- stored block 00..05 | ff..f8: block 8 is 00..06 | 00..00 (a 64-bit counter behind a fixed prefix would give 00..05 | 00..00)
+example : ctrBlock ((bytesToNatBE [0,0,0,0,0,0,0,5, 255,255,255,255,255,255,255,248] + 8) % 2 ^ 128)
+    = [0,0,0,0,0,0,0,6, 0,0,0,0,0,0,0,0] := by decide +kernel
+-- all ones wraps to all zero
+example : ctrBlock ((bytesToNatBE (List.replicate 16 255) + 1) % 2 ^ 128) = List.replicate 16 0 := by decide +kernel
+example : ctrBlock ((bytesToNatBE [0,0,0,0,0,0,0,0, 0,0,0,0,0,0,255,255] + 1) % 2 ^ 128)
+    = [0,0,0,0,0,0,0,0, 0,0,0,0,0,1,0,0] := by decide +kernel
 
 /-- an Hpp success response is accepted only if it carries the size of what follows, the call id of the request
     and `method | 0x8000`; the body handed back is what follows that header -/
